@@ -454,7 +454,9 @@ pub fn readings() -> Vec<Reading> {
         for grid in [false, true] {
             for any in [false, true] {
                 for ovr in [0u8, 1, 2] {
-                    for served in [false, true] {
+                    // E is not kept as an alternative: the statement says "earlier due time" and the docs
+                    // (10-runtime.md §6.2) say "longest waiting", i.e. the first missed instant
+                    for served in [false] {
                         v.push(Reading { any, immediate, ovr, grid, served });
                     }
                 }
